@@ -521,3 +521,8 @@ Definition kind_is_comp (k : node_kind) : bool :=
    reported as an error naming a cycle.  None = the panic. *)
 Definition compute_order (es_nodes : list nat) (ds : list (nat * nat)) (pref : list nat) : option sort_result :=
   if existsb (fun d => Nat.eqb (fst d) (snd d)) ds then None else Some (topo_sort es_nodes ds pref).
+
+(* computeOrder: a dependency on an extension that is not configured is rejected before any sort
+   ("unable to find extension %s on which extension %s depends") *)
+Definition missing_dependency (es_nodes : list nat) (ds : list (nat * nat)) : bool :=
+  existsb (fun d => negb (mem (fst d) es_nodes)) ds.
